@@ -19,13 +19,13 @@ ASSUMPTIONS = ['transcendental pointwise ops (exp, log, expm1, log1p, logaddexp,
 
 # every public attribute of PatternedTensor must be classified here: tested below, or excluded with a reason
 EXCLUDED = {'physical', 'paxes', 'vaxes', 'default', 'depict', 'nonphysical', 'freshen', 'isdisjoint', 'requires_grad', 'requires_grad_', 'grad',
-            'detach', 'is_complex', 'item', 'masked_fill_into', 'expansion', 'commutative', 'binary', 'solve', 'mv', 'mm', 'from_int',
+            'detach', 'is_complex', 'item', 'expansion', 'commutative', 'binary', 'solve', 'mv', 'mm', 'from_int',
             'eye', 'full', 'equal', 'allclose', 'equal_default', 'allclose_default', 'dtype', 'shape', 'size', 'numel', 'dim', 'ndim',
-            'ndimension', 'expand_as', 'repeat'}
+            'ndimension'}
 TESTED = {'add', 'sub', 'mul', 'div', 'logaddexp', 'maximum', 'logical_and', 'logical_or', 'logical_not', 'lt', 'le', 'gt', 'ge', 'eq',
           'abs', 'exp', 'expm1', 'log', 'neg_', 'log_', 'log1p_', 'relu_', 'abs_', 'nan_to_num_', 'clamp_min', 'clamp_max', 'to', 'where', 'any',
           'log_softmax', 'permute', 'transpose', 't', 'T', 'flatten', 'unsqueeze', 'expand', 'reshape', 'view', 'clone', 'copy_', 'default_to',
-          'project', 'dim_to_dense', 'tolist', 'to_dense', 'stack', 'norm'}
+          'project', 'dim_to_dense', 'tolist', 'to_dense', 'stack', 'norm', 'masked_fill_into', 'expand_as', 'repeat'}
 
 
 def is_dense(t):
@@ -883,6 +883,18 @@ def run(ctx):
         check(ctx, 'expand', [t], lambda a, s=ext_shape: a.expand(*s), lambda a, s=ext_shape: a.expand(*s), True, reqs, meta)
         t1 = t.unsqueeze(0)
         check(ctx, 'expand_unit', [t1], lambda a, s=ext_shape: a.expand(*s), lambda a, s=ext_shape: a.expand(*s), True, reqs, meta)
+        check(ctx, 'repeat', [t1], lambda a, s=ext_shape: a.repeat(*s), lambda a, s=ext_shape: a.expand(*s).clone(), True, reqs, meta)
+        tgt = random_pt(ctx.rng, types) if nd else t
+        check(ctx, 'expand_as', [t1, tgt.unsqueeze(0).expand(*ext_shape)], lambda a, b_: a.expand_as(b_), lambda a, b_: a.expand_as(b_), True, reqs, meta)
+        # masked_fill_into (used by F_viterbi to record rule indices): dest[i] = value where the Boolean tensor is true
+        def _mfi(a):
+            dest = torch.arange(float(max(1, a.numel())), dtype=torch.float64)[:a.numel()].reshape(a.shape).clone() if a.numel() else torch.zeros(a.shape, dtype=torch.float64)
+            a.masked_fill_into(dest, -7.0)
+            return dest
+        def _mfi_dense(a):
+            dest = torch.arange(float(max(1, a.numel())), dtype=torch.float64)[:a.numel()].reshape(a.shape).clone() if a.numel() else torch.zeros(a.shape, dtype=torch.float64)
+            return torch.where(a, torch.tensor(-7.0, dtype=torch.float64), dest)
+        check(ctx, 'masked_fill_into', [tb], _mfi, _mfi_dense, True, reqs, meta)
         # reshape / view: merging adjacent dimensions and inserting/removing size-1 dimensions must succeed
         shp = list(t.shape)
         merges = []
